@@ -34,6 +34,10 @@ LEVEL = {
          "Exploration over init strings and operation histories with full-content comparison after every step; round trip over arbitrary byte-string pairs."),
  "C17": ("differential C API vs C++ API over generated call sequences under ASan + LeakSanitizer; rapidcheck + libFuzzer",
          "Exploration over call histories on url / params / list / iterator handles with a C++ mirror; leaks and double frees are judged by the sanitizers."),
+ "C13": ("controlled-schedule exploration through hook H1 (exhaustive enumeration of 2-thread schedule prefixes + rapidcheck/libFuzzer-generated schedules for 2-4 threads, ASan) + free-running ThreadSanitizer workload incl. limit toggling",
+         "Exploration of interleavings: the harness owns the schedule of the lazy table initialisation and compares every thread's result with the sequential one; data races are judged by ThreadSanitizer on free-running threads. No liveness or memory-ordering claim beyond TSan's model."),
+ "C14": ("metamorphic / differential relations (test vs exec vs match, shortcut vs forced-regexp compilation through hook H2, literal rewrite, self-match of escaped components) over grammar-generated patterns and derived inputs; rapidcheck + libFuzzer",
+         "Exploration: no model of the pattern language is needed; the relations compare the library with itself across its execution modes and with ada::parse for the component inputs."),
  "C19": ("invariant predicate over every reachable state of setter histories; rapidcheck + libFuzzer",
          "Exploration over histories; the record invariants are evaluated after the parse and after every step on both URL types."),
 }
